@@ -17,7 +17,8 @@ while args:
     elif a == "--checks": checks_override = args.pop(0).split(",")
     else: ids.append(a)
 base = f"/tmp/sv{slot}"; repo = f"{base}/repo"; verif = f"{base}/verif"
-EXTRA = {"C16-s2": ["C13"], "C09-s2": ["C08"]}
+EXTRA = {"C16-s2": ["C13"], "C09-s2": ["C08"], "C04-s10": ["C11"], "C20-s8": ["C11"], "C07-s7": ["C10", "C11"]}
+KEEP_META = {"C07-s8", "C10-s8", "C16-s10", "C20-s7", "C02-s10", "C18-s9"}
 def sh(cmd, **kw): return subprocess.run(cmd, shell=True, capture_output=True, text=True, **kw)
 os.makedirs(base, exist_ok=True)
 if not os.path.isdir(repo):
@@ -46,7 +47,7 @@ for sid in ids:
     sh(f"git -C {repo} checkout -q -- . && git -C {repo} clean -fdq -- pie graph")
     print(name, det or "MISSED", flush=True)
     if not det: missed.append(name)
-    if update and not os.path.isfile(sid):
+    if update and not os.path.isfile(sid) and sid not in KEEP_META:
         mp = f"/verif/seeded/{sid}/meta.json"; meta = json.load(open(mp))
         meta["checks_run"] = runs; meta["detected_by"] = det
         json.dump(meta, open(mp, "w"), indent=1)
